@@ -12,8 +12,16 @@ func getTypeFromSchema(schema *spec.Schema) (typeName string, isArray bool) {
 	if len(refStr) > 0 {
 		return refStr, false
 	}
+	if len(schema.Type) == 0 {
+		// untyped schema (e.g. {}): no type name
+		return "", false
+	}
 	typeName = schema.Type[0]
 	if typeName == ArrayType {
+		if schema.Items == nil || schema.Items.Schema == nil {
+			// tuple-typed or absent items: no single item type
+			return "", true
+		}
 		typeName, _ = getSchemaType(&schema.Items.Schema.SchemaProps)
 		return typeName, true
 	}
@@ -47,6 +55,10 @@ func getTypeFromSchemaProps(schema *spec.SchemaProps) (typeName string, isArray 
 			typeName = fmt.Sprintf("%s.%s", typeName, format)
 		}
 		if typeName == ArrayType {
+			if schema.Items == nil || schema.Items.Schema == nil {
+				// tuple-typed or absent items: no single item type
+				return "", true
+			}
 			typeName, _ = getSchemaType(&schema.Items.Schema.SchemaProps)
 			return typeName, true
 		}
